@@ -19,7 +19,12 @@ fn render(v: ValueRef<'_>) -> String {
 
 /// Columns whose value is a freshly drawn identifier / wall-clock time (normalised away when
 /// comparing "same state up to fresh identifiers").
-pub const FRESH_COLUMNS: &[(&str, &str)] = &[("accounts", "uuid"), ("transactions", "created")];
+pub const FRESH_COLUMNS: &[(&str, &str)] = &[
+    ("accounts", "uuid"),
+    ("transactions", "created"),
+    // "the migration's stable identity, distinct per record": drawn when the record is created
+    ("orchard_ironwood_migrations", "uuid"),
+];
 
 pub fn table_names(conn: &Connection) -> rusqlite::Result<Vec<String>> {
     let mut st = conn.prepare(
